@@ -59,11 +59,11 @@ func def(id string, d *propertyDef) {
 
 func init() {
 	def("C01", &propertyDef{
-		Decides:    "in code reachable from the load entry points: (1) every unchecked type assertion, index and slice expression is proved safe, justified, or a listed finding (PANIC-TA, PANIC-IDX, PANIC-EXPL, lemma TAB-L1), no `==` / slices.Contains / map key on two interface values that can both hold a list or a mapping (PANIC-CMP), every kind-restricted reflect.Value method is applied under a test of the receiver's kind (PANIC-REFL), the result of a function that can return (nil, nil) is dereferenced only under a nil test (NILRET), and no function that assigns into a map parameter is handed a map that can be nil (NILMAP); (2) every recursive call cycle is a structural descent on a YAML tree or has a checked guard, every condition-less loop is inventoried (TERM, CYC); (3) the cycle guards for extends, include, aliases and depends_on are present, dominate the recursion they protect and return errors (CYC); (4) errors from reading referenced files are propagated (ERR), every entry of a list of file references (env_file, label_file, configuration files, env files given to dotenv) reaches its reader on every iteration of the loop over the list, with no skipping path (REFS), and, path-sensitively, no error produced by any call in the load scope reaches a return untested (ERRDROP); (5) every return of the load chain is project-xor-error (XOR); (6) each pipeline stage propagates its error and schema validation is wired after every merged document unless SkipValidation (PIPE).",
+		Decides:    "in code reachable from the load entry points: (1) every unchecked type assertion, index and slice expression is proved safe, justified, or a listed finding (PANIC-TA, PANIC-IDX, PANIC-EXPL, lemma TAB-L1), no `==` / slices.Contains / map key on two interface values that can both hold a list or a mapping (PANIC-CMP), every kind-restricted reflect.Value method is applied under a test of the receiver's kind (PANIC-REFL), the result of a function that can return (nil, nil) is dereferenced only under a nil test (NILRET), and no function that assigns into a map parameter is handed a map that can be nil (NILMAP); (2) every recursive call cycle is a structural descent on a YAML tree or has a checked guard, every condition-less loop is inventoried (TERM, CYC); (3) the cycle guards for extends, include, aliases and depends_on are present, dominate the recursion they protect and return errors (CYC); (4) errors from reading referenced files are propagated (ERR), every entry of a list of file references (env_file, label_file, configuration files, env files given to dotenv) reaches its reader on every iteration of the loop over the list, with no skipping path (REFS), and, path-sensitively, no error produced by any call in the load scope reaches a return untested (ERRDROP); (5) every return of the load chain is project-xor-error (XOR); (6) each pipeline stage propagates its error and schema validation is wired after every merged document unless SkipValidation (PIPE). A pointer loaded from a struct field (the optional parts of the model and of the options: deploy, resources.limits, Options.Interpolate, ...) is dereferenced only under a dominating non-nil test of the same field path, or after a fresh value was stored there (PANIC-NIL).",
 		NotDecided: "termination and stack bounds themselves (TERM inventories arguments); nil dereferences and nil-map writes other than through map parameters; panics inside dependencies; that an error names the missing file; recursion through function values (template substitution) is not in the static call cycles.",
-		Rules:      []string{"PANIC-TA", "PANIC-IDX", "PANIC-EXPL", "PANIC-CMP", "PANIC-REFL", "NILRET", "NILMAP", "TAB-L1", "TERM", "CYC", "ERR", "ERRDROP", "REFS", "XOR", "PIPE"},
+		Rules:      []string{"PANIC-TA", "PANIC-IDX", "PANIC-EXPL", "PANIC-CMP", "PANIC-REFL", "NILRET", "NILMAP", "TAB-L1", "TERM", "CYC", "ERR", "ERRDROP", "REFS", "XOR", "PIPE", "PANIC-NIL"},
 		Run: func(c *rules.Ctx) []report.Obligation {
-			return cat(c.PanicTA("PANIC-TA", "LOAD"), c.PanicIDX("PANIC-IDX", "LOAD"), c.PanicExpl("PANIC-EXPL", "LOAD"), c.PanicCMP("PANIC-CMP", "LOAD"), c.PanicREFL("PANIC-REFL", "LOAD"), c.NILRET("NILRET", "LOAD"), c.NILMAP("NILMAP", "LOAD"), c.TabL1("TAB-L1"),
+			return cat(c.PANICNIL("PANIC-NIL", "LOAD"), c.PanicTA("PANIC-TA", "LOAD"), c.PanicIDX("PANIC-IDX", "LOAD"), c.PanicExpl("PANIC-EXPL", "LOAD"), c.PanicCMP("PANIC-CMP", "LOAD"), c.PanicREFL("PANIC-REFL", "LOAD"), c.NILRET("NILRET", "LOAD"), c.NILMAP("NILMAP", "LOAD"), c.TabL1("TAB-L1"),
 				c.TERM("TERM", "LOAD"), c.CYC("CYC"), c.ERR("ERR", "LOAD"), c.ERRDROP("ERRDROP", "LOAD"), c.REFS("REFS"), c.XOR("XOR"), c.PIPE("PIPE", nil))
 		},
 	})
@@ -76,11 +76,11 @@ func init() {
 		},
 	})
 	def("C03", &propertyDef{
-		Decides:    "form coverage: for every attribute path of schema/compose-spec.json and every YAML kind the schema admits there, the code that consumes it has an arm for that kind: the canonical transformer registered for the path, else the custom decoder of the model type, else the plain Go kind under strict mapstructure + the repo's cast hook (A3); every schema attribute has a model field (A7); every transformer row denotes a schema path (A2); the bind-vs-volume decision of the volume short syntax is controlled by conditions computed from the source only (CLASSIFY); when several scalar spellings of one short form are accepted (a number and a string) they are all handed to the same parser of package types / format (SIBARM); command strings are split by shellwords.Parse only (SHELLSPLIT); a key is resolved from the environment only when it has no value at all (bare `KEY`, null), decided by nil / separator-absence / type tests and never by an emptiness test, so `KEY=` stays explicitly empty (INHERIT).",
+		Decides:    "form coverage: for every attribute path of schema/compose-spec.json and every YAML kind the schema admits there, the code that consumes it has an arm for that kind: the canonical transformer registered for the path, else the custom decoder of the model type, else the plain Go kind under strict mapstructure + the repo's cast hook (A3); every schema attribute has a model field (A7); every transformer row denotes a schema path (A2); the bind-vs-volume decision of the volume short syntax is controlled by conditions computed from the source only (CLASSIFY); when several scalar spellings of one short form are accepted (a number and a string) they are all handed to the same parser of package types / format (SIBARM); command strings are split by shellwords.Parse only (SHELLSPLIT); a key is resolved from the environment only when it has no value at all (bare `KEY`, null), decided by nil / separator-absence / type tests and never by an emptiness test, so `KEY=` stays explicitly empty (INHERIT); a short list converted to its mapping form gives every name its own attribute map, never one object under several keys (TREE, packages override and transform). KEY=VALUE strings are cut at the first `=` only (KVSPLIT).",
 		NotDecided: "that two spellings produce equal values: port-range pairing, what counts as a path in the bind-vs-volume classification, KEY=VALUE splitting, durations, byte sizes and shell-word splitting are value-level grammars; rejection of near-miss strings.",
-		Rules:      []string{"A3", "A7", "A2", "CLASSIFY", "SIBARM", "INHERIT", "SHELLSPLIT"},
+		Rules:      []string{"A3", "A7", "A2", "CLASSIFY", "SIBARM", "INHERIT", "SHELLSPLIT", "TREE", "KVSPLIT"},
 		Run: func(c *rules.Ctx) []report.Obligation {
-			return cat(c.SHELLSPLIT("SHELLSPLIT"), c.INHERIT("INHERIT"), c.A3("A3"), c.A7("A7"), c.A2("A2", rules.TTransform), c.CLASSIFY("CLASSIFY"), c.SIBARM("SIBARM", "transform", "types"))
+			return cat(c.KVSPLIT("KVSPLIT"), rules.Only(c.TREE("TREE", "LOAD"), "override.", "transform.", "inventory"), c.SHELLSPLIT("SHELLSPLIT"), c.INHERIT("INHERIT"), c.A3("A3"), c.A7("A7"), c.A2("A2", rules.TTransform), c.CLASSIFY("CLASSIFY"), c.SIBARM("SIBARM", "transform", "types"))
 		},
 	})
 	def("C04", &propertyDef{
@@ -93,28 +93,28 @@ func init() {
 		},
 	})
 	def("C05", &propertyDef{
-		Decides:    "in the function that calls override.ExtendService: the base is a fresh deep clone (ownership analysis of deepClone), every return of the merged service is dominated by delete(merged,\"extends\") and by the memoising store, missing bases have error returns, the other file is loaded with ResolvePaths=false and resolved once against loader.Dir(refPath) on every success path, ApplyExtends stores the result for every service (EXT); the recursion is guarded by a successful cycleTracker.Add (CYC).",
+		Decides:    "in the function that calls override.ExtendService: the base is a fresh deep clone (ownership analysis of deepClone), every return of the merged service is dominated by delete(merged,\"extends\") and by the memoising store, missing bases have error returns, the other file is loaded with ResolvePaths=false and resolved once against loader.Dir(refPath) on every success path, ApplyExtends stores the result for every service (EXT); the recursion is guarded by a successful cycleTracker.Add (CYC); the mergers that ExtendService runs never store one map or slice under several keys, so refining one inherited entry cannot change its siblings (TREE, package override).",
 		NotDecided: "that the result equals base-then-local by the override rules (merge values); per-attribute path anchoring.",
-		Rules:      []string{"EXT", "CYC", "TREEPATH"},
+		Rules:      []string{"EXT", "CYC", "TREEPATH", "TREE"},
 		Run: func(c *rules.Ctx) []report.Obligation {
-			return cat(c.EXT("EXT"), rules.Only(c.CYC("CYC"), "extends ::"), c.TREEPATH("TREEPATH"))
+			return cat(rules.Only(c.TREE("TREE", "LOAD"), "override.", "loader.", "inventory"), c.EXT("EXT"), rules.Only(c.CYC("CYC"), "extends ::"), c.TREEPATH("TREEPATH"))
 		},
 	})
 	def("C06", &propertyDef{
-		Decides:    "import stores a resource only when absent, differing redefinitions return an error (INC-1); the default `.env` of an included project is the one of its project directory (INCENV); every field of loader.Options is copied, from the field of the same name, by (*Options).clone, so a nested load (include, extends) runs under the switches the caller set (CLONE); every entry of an include section is loaded: no iteration over the entries reaches the next without the nested load (REFS); the resource kinds imported / named / rendered equal the resource maps of types.Project (A10); the include chain is compared, extended and handed to the nested load (CYC); the nested load works on cloned options with ResolvePaths, SkipNormalization and SkipConsistencyCheck forced, its environment is Clone(parent).Merge(env file) (INC-4); `include` is deleted and the nested model imported on every success path (INC-5); included env_file errors are propagated (ERR).",
+		Decides:    "import stores a resource only when absent, differing redefinitions return an error (INC-1); the default `.env` of an included project is the one of its project directory (INCENV); every field of loader.Options is copied, from the field of the same name, by (*Options).clone, so a nested load (include, extends) runs under the switches the caller set (CLONE); every entry of an include section is loaded: no iteration over the entries reaches the next without the nested load (REFS); the resource kinds imported / named / rendered equal the resource maps of types.Project (A10); the include chain is compared, extended and handed to the nested load (CYC); the nested load works on cloned options with ResolvePaths, SkipNormalization and SkipConsistencyCheck forced, its environment is Clone(parent).Merge(env file) (INC-4); `include` is deleted and the nested model imported on every success path (INC-5); included env_file errors are propagated (ERR); a secret / config attribute is filled from the environment only on the ok edge of the lookup, so the second pass over an imported model (parent environment only) cannot blank what the included project's own environment resolved (ENVPRES).",
 		NotDecided: "equivalence with the pasted model; directory anchoring values.",
-		Rules:      []string{"INC", "A10", "CYC", "ERR", "REFS", "CLONE", "INCENV"},
+		Rules:      []string{"INC", "A10", "CYC", "ERR", "REFS", "CLONE", "INCENV", "ENVPRES"},
 		Run: func(c *rules.Ctx) []report.Obligation {
-			return cat(c.INCENV("INCENV"), c.CLONE("CLONE"), c.INC("INC"), c.A10("A10"), rules.Only(c.CYC("CYC"), "include ::"), rules.Only(c.ERR("ERR", "LOAD"), "loader.ApplyInclude ::"), rules.Only(c.REFS("REFS", "loader"), "loader.ApplyInclude ::"),
+			return cat(c.ENVPRES("ENVPRES"), c.INCENV("INCENV"), c.CLONE("CLONE"), c.INC("INC"), c.A10("A10"), rules.Only(c.CYC("CYC"), "include ::"), rules.Only(c.ERR("ERR", "LOAD"), "loader.ApplyInclude ::"), rules.Only(c.REFS("REFS", "loader"), "loader.ApplyInclude ::"),
 				c.RangeGuard("INC-4", "types.(Mapping).Merge", true))
 		},
 	})
 	def("C07", &propertyDef{
-		Decides:    "the operator table, the operator class of the braced-substitution regex and the separator each bound function partitions on agree row by row (TPL-1); defaults, replacements and error messages go through Substitute (TPL-2); no value obtained from the variable mapping flows back into the template argument of Substitute*/ReplaceAllStringFunc (TPL-3); an empty name yields InvalidTemplateError (TPL-4); index/slice/assertion safety in packages template and interpolation (PANIC-IDX, PANIC-TA); Substitute keeps no state: no package-level variable of template / interpolation is written after init, directly or through a copy of its slice header, map or pointer (GLOB).",
+		Decides:    "the operator table, the operator class of the braced-substitution regex and the separator each bound function partitions on agree row by row (TPL-1); defaults, replacements and error messages go through Substitute (TPL-2); no value obtained from the variable mapping flows back into the template argument of Substitute*/ReplaceAllStringFunc (TPL-3); an empty name yields InvalidTemplateError (TPL-4); the brace-matching scan looks at every byte: its index advances by exactly one per iteration (TPL-7); index/slice/assertion safety in packages template and interpolation (PANIC-IDX, PANIC-TA); Substitute keeps no state: no package-level variable of template / interpolation is written after init, directly or through a copy of its slice header, map or pointer (GLOB).",
 		NotDecided: "the semantics of each operator (set/unset/empty tables), brace matching, first-operator-wins, verbatim copying of literal text: value-level. This is the narrowest claim of the set.",
 		Rules:      []string{"TPL", "PANIC-IDX", "PANIC-TA", "GLOB"},
 		Run: func(c *rules.Ctx) []report.Obligation {
-			return cat(c.TPL("TPL"), c.PanicIDX("PANIC-IDX", "TEMPLATE"), c.PanicTA("PANIC-TA", "TEMPLATE"), rules.Only(c.GLOB("GLOB"), "template.", "interpolation.", "inventory"))
+			return cat(c.BRACESCAN("TPL-7"), c.TPL("TPL"), c.PanicIDX("PANIC-IDX", "TEMPLATE"), c.PanicTA("PANIC-TA", "TEMPLATE"), rules.Only(c.GLOB("GLOB"), "template.", "interpolation.", "inventory"))
 		},
 	})
 	def("C08", &propertyDef{
@@ -126,37 +126,37 @@ func init() {
 		},
 	})
 	def("C09", &propertyDef{
-		Decides:    "every model field has equal yaml and json keys (or json \"-\"); a type has both or neither of MarshalYAML/MarshalJSON; the kind a custom MarshalYAML emits is admitted by the schema where the type is used (A6); every schema attribute has a model field (A7); Project.MarshalJSON enumerates the resource kinds of the struct (A10); renderers and the parsers that read them back agree on their literal separators and host lists are sorted (CODEC); rendering leaves the project untouched: MarshalYAML / MarshalJSON and what they call write nothing reachable from the receiver, so a second rendering starts from the same project (IMM-I1); decoders of signed integer model types do not parse with an unsigned parser (NUMSIGN); no renderer chooses a spelling by the sign of an integer field (SIGNCMP); a key is resolved from the environment only when it has no value at all (bare `KEY`, null), decided by nil / separator-absence / type tests and never by an emptiness test, so `KEY=` stays explicitly empty (INHERIT), which is what keeps an explicitly empty value of a rendering from inheriting on reload.",
+		Decides:    "every model field has equal yaml and json keys (or json \"-\"); a type has both or neither of MarshalYAML/MarshalJSON; the kind a custom MarshalYAML emits is admitted by the schema where the type is used (A6); every schema attribute has a model field (A7); Project.MarshalJSON enumerates the resource kinds of the struct (A10); renderers and the parsers that read them back agree on their literal separators and host lists are sorted (CODEC); rendering leaves the project untouched: MarshalYAML / MarshalJSON and what they call write nothing reachable from the receiver, so a second rendering starts from the same project (IMM-I1); decoders of signed integer model types do not parse with an unsigned parser (NUMSIGN); no renderer chooses a spelling by the sign of an integer field (SIGNCMP); a key is resolved from the environment only when it has no value at all (bare `KEY`, null), decided by nil / separator-absence / type tests and never by an emptiness test, so `KEY=` stays explicitly empty (INHERIT), which is what keeps an explicitly empty value of a rendering from inheriting on reload. An attribute that has a documented default and takes part in the key under which a unique list is de-duplicated enters that key with the default when it is absent, so the first load and the reload (where defaults are spelled out) de-duplicate alike (KEYDFLT).",
 		NotDecided: "equality of the reloaded project; byte-identity of a second rendering beyond map order and receiver immutability.",
-		Rules:      []string{"A6", "A7", "A10", "CODEC", "IMM-I1", "INHERIT", "NUMSIGN", "SIGNCMP"},
+		Rules:      []string{"A6", "A7", "A10", "CODEC", "IMM-I1", "INHERIT", "NUMSIGN", "SIGNCMP", "KEYDFLT"},
 		Run: func(c *rules.Ctx) []report.Obligation {
-			return cat(c.SIGNCMP("SIGNCMP"), c.NUMSIGN("NUMSIGN"), c.INHERIT("INHERIT"), c.A6("A6"), c.A7("A7"), c.A10("A10"), c.CODEC("CODEC"), c.IMMRender("IMM"))
+			return cat(c.KEYDFLT("KEYDFLT"), c.SIGNCMP("SIGNCMP"), c.NUMSIGN("NUMSIGN"), c.INHERIT("INHERIT"), c.A6("A6"), c.A7("A7"), c.A10("A10"), c.CODEC("CODEC"), c.IMMRender("IMM"))
 		},
 	})
 	def("C10", &propertyDef{
-		Decides:    "checkConsistency has an error return that depends on the model fields of each of the 20 rules of the statement (INV) and ends in graph.CheckCycle; searchCycle is guarded by path membership and errors on a hit (CYC); checkConsistency runs unless SkipConsistencyCheck and validation.Validate unless SkipValidation, errors propagated (PIPE); the switches are the caller's: loader.Options fields are written only by option setters or on an Options value the function created / cloned, never through a *Options received from the caller (GATEW); the error for several exclusive sources of a secret / config does not depend on `driver` / `external` (SRCEXCL); every field of loader.Options is copied, from the field of the same name, by (*Options).clone, so a nested load (include, extends) runs under the switches the caller set (CLONE); validation.checks rows denote schema paths and are exclusive (A1, A2).",
+		Decides:    "checkConsistency has an error return that depends on the model fields of each of the 20 rules of the statement (INV) and ends in graph.CheckCycle; searchCycle is guarded by path membership and errors on a hit (CYC); checkConsistency runs unless SkipConsistencyCheck and validation.Validate unless SkipValidation, errors propagated (PIPE); the switches are the caller's: loader.Options fields are written only by option setters or on an Options value the function created / cloned, never through a *Options received from the caller (GATEW); the error for several exclusive sources of a secret / config does not depend on `driver` / `external` (SRCEXCL); every field of loader.Options is copied, from the field of the same name, by (*Options).clone, so a nested load (include, extends) runs under the switches the caller set (CLONE); validation.checks rows denote schema paths and are exclusive (A1, A2). Every attribute a validation check tests as a boolean or number has an interpolation cast row at its path, so the check sees the typed value also when it was written as a variable (CHKCAST).",
 		NotDecided: "that each condition is the right condition (an inverted comparison survives); acceptance implies consistency for fragments arriving through override / extends / include.",
-		Rules:      []string{"INV", "CYC", "PIPE", "GATEW", "A1", "A2", "CLONE", "TREE", "EXTVAL", "SRCEXCL"},
+		Rules:      []string{"INV", "CYC", "PIPE", "GATEW", "A1", "A2", "CLONE", "TREE", "EXTVAL", "SRCEXCL", "CHKCAST"},
 		Run: func(c *rules.Ctx) []report.Obligation {
-			return cat(c.SRCEXCL("SRCEXCL"), c.EXTVAL("EXTVAL"), c.TREE("TREE", "LOAD"), c.CLONE("CLONE"), c.INV("INV"), rules.Only(c.CYC("CYC"), "depends_on ::"), c.PIPE("PIPE", stageIn("loader.checkConsistency", "validation.Validate")), c.GATEW("GATEW"),
+			return cat(c.CHKCAST("CHKCAST"), c.SRCEXCL("SRCEXCL"), c.EXTVAL("EXTVAL"), c.TREE("TREE", "LOAD"), c.CLONE("CLONE"), c.INV("INV"), rules.Only(c.CYC("CYC"), "depends_on ::"), c.PIPE("PIPE", stageIn("loader.checkConsistency", "validation.Validate")), c.GATEW("GATEW"),
 				c.A1("A1", rules.TChecks), c.A2("A2", rules.TChecks))
 		},
 	})
 	def("C11", &propertyDef{
-		Decides:    "in everything reachable from SetDefaultValues, Canonical and Normalize every update of a map the function did not create is guarded by an absence test, an alias test, derives from the previous value, or is the current entry of a range (DFLT); SetDefaultValues and Normalize are gated by their flags and propagate errors (PIPE); the defaultValues rows denote schema paths (A2); defaults filled in for several entries are separate objects: no loop stores one loop-invariant map under several keys, so refining one entry later cannot change its siblings (TREE); a resource keeps its bare key as name on the strength of the value of `external`, not of the presence of the key (EXTVAL); whether a service uses the `default` network is decided by the presence of the key, never by a nil test of its value (NETPRES); every field of loader.Options is copied, from the field of the same name, by (*Options).clone, so a nested load (include, extends) runs under the switches the caller set (CLONE).",
+		Decides:    "in everything reachable from SetDefaultValues, Canonical and Normalize every update of a map the function did not create is guarded by an absence test, an alias test, derives from the previous value, or is the current entry of a range (DFLT); SetDefaultValues and Normalize are gated by their flags and propagate errors (PIPE); the defaultValues rows denote schema paths (A2); defaults filled in for several entries are separate objects: no loop stores one loop-invariant map under several keys, so refining one entry later cannot change its siblings (TREE); a resource keeps its bare key as name on the strength of the value of `external`, not of the presence of the key (EXTVAL); whether a service uses the `default` network is decided by the presence of the key, never by a nil test of its value (NETPRES); every field of loader.Options is copied, from the field of the same name, by (*Options).clone, so a nested load (include, extends) runs under the switches the caller set (CLONE). The unicity key of a list item uses, for an attribute the defaults handler of the same list fills in, the same constant when the attribute is absent: implicit and explicit spellings of one entry collapse to one (KEYDFLT).",
 		NotDecided: "that the default values are the specification's (\"tcp\", \"ingress\", <project>_<key>); that `default` is added iff some service uses it.",
-		Rules:      []string{"DFLT", "PIPE", "A2", "TREE", "CLONE", "EXTVAL", "NETPRES"},
+		Rules:      []string{"DFLT", "PIPE", "A2", "TREE", "CLONE", "EXTVAL", "NETPRES", "KEYDFLT"},
 		Run: func(c *rules.Ctx) []report.Obligation {
-			return cat(c.NETPRES("NETPRES"), c.EXTVAL("EXTVAL"), c.CLONE("CLONE"), c.DFLT("DFLT", []string{"transform.SetDefaultValues", "transform.Canonical", "loader.Normalize"}, []string{"loader.load"}),
+			return cat(c.KEYDFLT("KEYDFLT"), c.NETPRES("NETPRES"), c.EXTVAL("EXTVAL"), c.CLONE("CLONE"), c.DFLT("DFLT", []string{"transform.SetDefaultValues", "transform.Canonical", "loader.Normalize"}, []string{"loader.load"}),
 				c.PIPE("PIPE", stageIn("transform.SetDefaultValues", "loader.Normalize")), c.A2("A2", rules.TDefaults), c.TREE("TREE", "LOAD"))
 		},
 	})
 	def("C12", &propertyDef{
-		Decides:    "each path-bearing attribute named by the statement matches exactly one resolver row and no resolver sits on another attribute (A9); resolver patterns are exclusive and denote schema paths (A1, A2); each origin resolves against its own base: main files against config.WorkingDir gated by ResolvePaths, included projects against loader.Dir / project_directory (ORIGIN), extended files against loader.Dir(refPath) with the nested load not resolving (EXT-5); a build context containing `://` is returned unchanged on the strength of a plain substring test (URLCTX); no branch of the resolver methods is decided by the base directory, so whether a path is rewritten depends on the path alone (PATHPURE); the home directory replaces exactly the leading `~` (TILDE); the resolvers bound to mount sources and secret / config files consult the Windows-absolute test (A9-win).",
+		Decides:    "each path-bearing attribute named by the statement matches exactly one resolver row and no resolver sits on another attribute (A9); resolver patterns are exclusive and denote schema paths (A1, A2); each origin resolves against its own base: main files against config.WorkingDir gated by ResolvePaths, included projects against loader.Dir / project_directory (ORIGIN), extended files against loader.Dir(refPath) with the nested load not resolving (EXT-5); the base of an `extends` is a deep copy, so the in-place rewriting of a path-bearing mapping is applied once per service and never to an object two services share (EXT-1); a build context containing `://` is returned unchanged on the strength of a plain substring test (URLCTX); no branch of the resolver methods is decided by the base directory, so whether a path is rewritten depends on the path alone (PATHPURE); the home directory replaces exactly the leading `~` (TILDE); the resolvers bound to mount sources and secret / config files consult the Windows-absolute test (A9-win).",
 		NotDecided: "absolute / known-remote-prefix / Windows detection, `~` expansion, idempotence: value-level string predicates.",
-		Rules:      []string{"A9", "A1", "A2", "ORIGIN", "EXT-5", "PIPE", "TREEPATH", "URLCTX", "PATHPURE", "TILDE"},
+		Rules:      []string{"A9", "A1", "A2", "ORIGIN", "EXT-5", "EXT-1", "PIPE", "TREEPATH", "URLCTX", "PATHPURE", "TILDE"},
 		Run: func(c *rules.Ctx) []report.Obligation {
-			return cat(c.TILDE("TILDE"), c.PATHPURE("PATHPURE"), c.A9("A9"), c.TREEPATH("TREEPATH"), c.URLCTX("URLCTX"), c.A1("A1", rules.TResolvers), c.A2("A2", rules.TResolvers), c.ORIGIN("ORIGIN"), rules.OnlyRule(c.EXT("EXT"), "EXT-5"),
+			return cat(c.TILDE("TILDE"), c.PATHPURE("PATHPURE"), c.A9("A9"), c.TREEPATH("TREEPATH"), c.URLCTX("URLCTX"), c.A1("A1", rules.TResolvers), c.A2("A2", rules.TResolvers), c.ORIGIN("ORIGIN"), rules.OnlyRule(c.EXT("EXT"), "EXT-5", "EXT-1"),
 				c.PIPE("PIPE", stageIn("paths.ResolveRelativePaths")))
 		},
 	})
@@ -178,11 +178,11 @@ func init() {
 		},
 	})
 	def("C15", &propertyDef{
-		Decides:    "WithProfiles ranges over AllServices() and stores every service on exactly one edge of HasProfile into the map assigned to Services resp. DisabledServices (PART-1); WithServicesDisabled records the service in DisabledServices before deleting it from Services, under the presence test, and deletes DependsOn[name] in all remaining services (PART-2, DEP); WithSelectedServices keeps or disables every service (PART-3); WithServicesEnabled re-partitions through WithProfiles on every path where a name was given (PART-4); the profile predicate compares every selected profile with `*` (PROFSTAR); no map range in the selection operations has an order-sensitive effect (ORD).",
+		Decides:    "WithProfiles ranges over AllServices() and stores every service on exactly one edge of HasProfile into the map assigned to Services resp. DisabledServices (PART-1); WithServicesDisabled records the service in DisabledServices before deleting it from Services, under the presence test, and deletes DependsOn[name] in all remaining services (PART-2, DEP); WithSelectedServices keeps or disables every service (PART-3); WithServicesEnabled re-partitions through WithProfiles on every path where a name was given (PART-4); the profile predicate compares every selected profile with `*` (PROFSTAR); no map range in the selection operations has an order-sensitive effect (ORD). The lookup that withServices ranges over returns the services it found on every path, so an optional dependency on a service that is not enabled does not drop its siblings (PART-FOUND).",
 		NotDecided: "the profile predicate, the dependency closure on arbitrary graphs, pruning exactly the referenced resources: set-valued semantics.",
-		Rules:      []string{"PART", "ORD", "PROFSTAR"},
+		Rules:      []string{"PART", "ORD", "PROFSTAR", "PART-FOUND"},
 		Run: func(c *rules.Ctx) []report.Obligation {
-			return cat(c.PROFSTAR("PROFSTAR"), c.PART("PART"), c.ORD("ORD", "SELECT"))
+			return cat(c.PARTFOUND("PART-FOUND"), c.PROFSTAR("PROFSTAR"), c.PART("PART"), c.ORD("ORD", "SELECT"))
 		},
 	})
 	def("C16", &propertyDef{
@@ -195,20 +195,20 @@ func init() {
 		},
 	})
 	def("C17", &propertyDef{
-		Decides:    "name precedence in withNamePrecedenceLoad (explicit, COMPOSE_PROJECT_NAME, directory) with the right imperative flags (NAME-1); projectName validates an imperative name without consulting files, exports the name on every exit, interpolates (unless SkipInterpolation) and normalises the file name, uses it only when non-empty, last file wins (NAME-2); load rejects an empty name, WithName rejects non-normal names (NAME-3); NormalizeProjectName trims the leading `_` / `-` from the already filtered text (NAME-5); WithOsEnv and Mapping.Merge write only absent keys, WithEnv and later .env files overwrite, the .env lookup consults the current environment first (ENV).",
+		Decides:    "name precedence in withNamePrecedenceLoad (explicit, COMPOSE_PROJECT_NAME, directory) with the right imperative flags (NAME-1); projectName validates an imperative name without consulting files, exports the name on every exit, interpolates (unless SkipInterpolation) and normalises the file name, uses it only when non-empty, last file wins (NAME-2); load rejects an empty name, WithName rejects non-normal names (NAME-3); NormalizeProjectName trims the leading `_` / `-` from the already filtered text (NAME-5); WithOsEnv and Mapping.Merge write only absent keys, WithEnv and later .env files overwrite, the .env lookup consults the current environment first (ENV). The KEY=VALUE entries of the explicit and OS layers are cut at their first `=` (Cut / SplitN 2), never split on every `=`, so a variable whose value contains `=` stays in its layer (KVSPLIT).",
 		NotDecided: "the regex itself, directory-name normalisation results, the option call order chosen by the caller.",
-		Rules:      []string{"NAME", "ENV"},
+		Rules:      []string{"NAME", "ENV", "KVSPLIT"},
 		Run: func(c *rules.Ctx) []report.Obligation {
-			return cat(c.NAME("NAME"), c.RangeGuard("ENV", "cli.WithOsEnv", true), c.RangeGuard("ENV", "types.(Mapping).Merge", true),
+			return cat(c.KVSPLIT("KVSPLIT"), c.NAME("NAME"), c.RangeGuard("ENV", "cli.WithOsEnv", true), c.RangeGuard("ENV", "types.(Mapping).Merge", true),
 				c.RangeGuard("ENV", "cli.WithEnv$1", false), c.RangeGuard("ENV", "dotenv.GetEnvFromFile", false))
 		},
 	})
 	def("C18", &propertyDef{
-		Decides:    "every index and slice expression and every unchecked assertion reachable from the exported functions of package dotenv (and the part of template they reach) is in bounds for every byte string (PANIC-IDX, PANIC-TA, PANIC-EXPL); recursions and condition-less loops are inventoried (TERM); the quoted-value scan succeeds only at the matching quote and every exit after the scan carries an error, an invalid key rune is an error (ERRRET); no error of the parse scope reaches a return untested (ERRDROP); every env file named is read (REFS); a variable counts as found on the boolean result of the lookup alone and lookup functions keep no memo (LOOKUP); escape sequences are decoded in a single scan of the value as written (ESC).",
+		Decides:    "every index and slice expression and every unchecked assertion reachable from the exported functions of package dotenv (and the part of template they reach) is in bounds for every byte string (PANIC-IDX, PANIC-TA, PANIC-EXPL); recursions and condition-less loops are inventoried (TERM); the quoted-value scan succeeds only at the matching quote and every exit after the scan carries an error, an invalid key rune is an error (ERRRET); no error of the parse scope reaches a return untested (ERRDROP); every env file named is read (REFS); a variable counts as found on the boolean result of the lookup alone and lookup functions keep no memo (LOOKUP); escape sequences are decoded in a single scan of the value as written (ESC). The blank class of the grammar (dotenv.isSpace) is the constant set TAB VT FF CR SPACE NEL NBSP, decided by comparisons with constants only (BLANKSET).",
 		NotDecided: "that the returned map is the grammar's (quoting, escapes, inline comments, lookup precedence): needs a reference evaluator.",
-		Rules:      []string{"PANIC-IDX", "PANIC-TA", "PANIC-EXPL", "TERM", "ERRRET", "ERRDROP", "REFS", "LOOKUP", "ESC"},
+		Rules:      []string{"PANIC-IDX", "PANIC-TA", "PANIC-EXPL", "TERM", "ERRRET", "ERRDROP", "REFS", "LOOKUP", "ESC", "BLANKSET"},
 		Run: func(c *rules.Ctx) []report.Obligation {
-			return cat(c.ESC("ESC"), c.PanicIDX("PANIC-IDX", "DOTENV"), c.PanicTA("PANIC-TA", "DOTENV"), c.PanicExpl("PANIC-EXPL", "DOTENV"), c.TERM("TERM", "DOTENV"), c.ERRRET("ERRRET"), c.ERRDROP("ERRDROP", "DOTENV"), c.REFS("REFS", "dotenv"), c.LOOKUP("LOOKUP", "dotenv"))
+			return cat(c.BLANKSET("BLANKSET"), c.ESC("ESC"), c.PanicIDX("PANIC-IDX", "DOTENV"), c.PanicTA("PANIC-TA", "DOTENV"), c.PanicExpl("PANIC-EXPL", "DOTENV"), c.TERM("TERM", "DOTENV"), c.ERRRET("ERRRET"), c.ERRDROP("ERRDROP", "DOTENV"), c.REFS("REFS", "dotenv"), c.LOOKUP("LOOKUP", "dotenv"))
 		},
 	})
 	def("C19", &propertyDef{
@@ -221,11 +221,11 @@ func init() {
 		},
 	})
 	def("C20", &propertyDef{
-		Decides:    "each of the four secret/config marshallers blanks Content on the edge where it must not be rendered and reads the rendered copy afterwards (SEC-1); they exist with value receivers (SEC-2); marshallContent is written in one function, under the explicit option, on a deep copy (SEC-3); the decoder hook moves the carrier key to Content and deletes it (SEC-4); the renderers keep no package-level state (no pooled buffer a returned rendering could alias) (GLOB); no decision of the pipeline is keyed on the last path segment alone, which at depth two is a user-chosen resource name (PATHLAST); the loops that resolve environment-sourced secrets and configs carry nothing from one resource to the next (ORD on loader.resolve*); environment values looked up for secrets/configs are stored only under the carrier key resp. `content` (SEC-5); the project renderers do not write through the project (IMM-I1).",
+		Decides:    "each of the four secret/config marshallers blanks Content on the edge where it must not be rendered and reads the rendered copy afterwards (SEC-1); they exist with value receivers (SEC-2); marshallContent is written in one function, under the explicit option, on a deep copy (SEC-3); the decoder hook moves the carrier key to Content and deletes it (SEC-4); the renderers keep no package-level state (no pooled buffer a returned rendering could alias) (GLOB); no decision of the pipeline is keyed on the last path segment alone, which at depth two is a user-chosen resource name (PATHLAST); the loops that resolve environment-sourced secrets and configs carry nothing from one resource to the next (ORD on loader.resolve*); environment values looked up for secrets/configs are stored only under the carrier key resp. `content` (SEC-5); the project renderers do not write through the project (IMM-I1). What the loader stores under a constant key and reads back by type assertion (the `#extensions` mapping that carries an environment secret) is stored with a type the reader asserts, so the hand-over cannot fail silently (SEC-6).",
 		NotDecided: "non-occurrence of the value in the bytes (a second struct field, a user extension literally named x-#value, a value present elsewhere in the model); exact reproduction with WithSecretContent.",
 		Rules:      []string{"SEC", "IMM-I1", "GLOB", "ORD", "PATHLAST"},
 		Run: func(c *rules.Ctx) []report.Obligation {
-			return cat(c.PATHLAST("PATHLAST"), c.SEC("SEC"), c.IMMRender("IMM"), rules.Only(c.GLOB("GLOB"), "types.", "inventory"), rules.Only(c.ORD("ORD", "LOAD"), "loader.resolve"))
+			return cat(c.KEYTYPE("SEC-6"), c.PATHLAST("PATHLAST"), c.SEC("SEC"), c.IMMRender("IMM"), rules.Only(c.GLOB("GLOB"), "types.", "inventory"), rules.Only(c.ORD("ORD", "LOAD"), "loader.resolve"))
 		},
 	})
 }
